@@ -26,31 +26,37 @@ def main():
     if args:
         names = [n for n in names if any(n.startswith(a) for a in args)]
     claimed = [c['property_id'] for c in json.load(open(os.path.join(VERIF, 'MANIFEST.json')))['checks']]
-    assert sh(['git', '-C', REPO, 'status', '--porcelain']).stdout.strip() == '', '/repo is not clean'
-    rows = []
-    for n in names:
+    import concurrent.futures
+    from scratch_repo import patched_copy, check_env
+
+    def one(n):
         d = os.path.join(VERIF, 'seeded', n)
+        if not os.path.exists(os.path.join(d, 'meta.json')):
+            return None
         meta = json.load(open(os.path.join(d, 'meta.json')))
         prop = meta['property']
-        r = sh(['git', '-C', REPO, 'apply', os.path.join(d, 'patch.diff')])
-        if r.returncode != 0:
-            rows.append((n, prop, 'PATCH-DOES-NOT-APPLY', ''))
-            continue
         try:
-            targets = claimed if run_all else [prop]
-            hits = []
-            for p in targets:
-                out = sh([os.path.join(VERIF, 'check'), p, '--tier', tier], cwd=VERIF).stdout
-                v = [l for l in out.splitlines() if l.startswith('VIOLATION')]
-                if v:
-                    hits.append(p + ('(no-failing-input)' if all('no-failing-input-found' in l for l in v) else ''))
-            rows.append((n, prop, 'CAUGHT' if any(h.startswith(prop) for h in hits) else 'MISSED', ' '.join(hits)))
-        finally:
-            sh(['git', '-C', REPO, 'checkout', '--', '.'])
+            with patched_copy(os.path.join(d, 'patch.diff')) as root:
+                hits = []
+                for p in (claimed if run_all else [prop]):
+                    out = sh([os.path.join(VERIF, 'check'), p, '--tier', tier], cwd=VERIF, env=check_env(root)).stdout
+                    v = [l for l in out.splitlines() if l.startswith('VIOLATION')]
+                    if v:
+                        hits.append(p + ('(no-failing-input)' if all('no-failing-input-found' in l for l in v) else ''))
+                return (n, prop, 'CAUGHT' if any(h.startswith(prop) for h in hits) else 'MISSED', ' '.join(hits))
+        except RuntimeError:
+            return (n, prop, 'PATCH-DOES-NOT-APPLY', '')
+    jobs = 4
+    for a in sys.argv[1:]:
+        if a.startswith('--jobs='):
+            jobs = int(a[7:])
+    with concurrent.futures.ThreadPoolExecutor(max_workers=jobs) as ex:
+        rows = [r for r in ex.map(one, names) if r]
     for r in rows:
         print('%-28s target=%s %-8s by: %s' % r)
     return 0
 
 
 if __name__ == '__main__':
+    sys.path.insert(0, os.path.dirname(os.path.abspath(__file__)))
     sys.exit(main())
